@@ -233,6 +233,53 @@ def boundaries(base):
     return sorted(vals)
 
 
+def check_persisted(rec):
+    """digit strings held in cells (typed, or what DEC2HEX returned) convert
+    the same after the model went through a file; several of them look like
+    numbers in exponent notation"""
+    import os
+    from pycel.excelcompiler import ExcelCompiler
+    from vlib.xl import TempDir
+    texts = ['1E3', '2e2', '00E1', '12E4', '7E8', '1E30', 'E1', '1E', 'FF',
+             '1EE3', '0101', '777', '1e1', '0E0', '9E9', '00012', '1.0',
+             '-1', '+5', '1_0', '017', 'TRUE']
+    cells, formulas = {}, {}
+    for i, t in enumerate(texts):
+        cells[f'A{i + 1}'] = t
+        for j, f in enumerate(('HEX2DEC', 'OCT2DEC', 'BIN2DEC', 'HEX2OCT')):
+            formulas[f'{"BCDE"[j]}{i + 1}'] = f'={f}(A{i + 1})'
+    cells['G1'] = 483
+    formulas['G2'] = '=DEC2HEX(G1)'
+    formulas['G3'] = '=HEX2DEC(G2)'
+    with TempDir() as tmp:
+        model = compile_spec({'sheets': {'S': dict(cells, **formulas)}},
+                             filename=os.path.join(tmp, 'book'))
+        want = {a: model.evaluate(f'S!{a}') for a in formulas}
+        # (G2 is frozen to its text "1E3" by the trim)
+        model.trim_graph(['S!A1'], [f'S!{a}' for a in formulas
+                                    if a != 'G2'])
+        for fmt in ('yml', 'json', 'pkl'):
+            model.to_file(os.path.join(tmp, 'm'), file_types=(fmt,))
+            loaded = ExcelCompiler.from_file(os.path.join(tmp, f'm.{fmt}'))
+            for a in formulas:
+                if a == 'G2':
+                    continue
+                case = dict(kind_='persisted', fmt=fmt, cell=a)
+                rec.case(key=('persisted', fmt, a), nontrivial=True,
+                         labels=('persisted', f'fmt:{fmt}'), sample=case)
+                try:
+                    got = loaded.evaluate(f'S!{a}')
+                except Exception as exc:
+                    got = ('raises', exc_key(exc))
+                if got != want[a]:
+                    row = int(a[1:])
+                    rec.fail(f'persisted:{formulas[a].split("(")[0][1:]}:{fmt}',
+                             case,
+                             f'{formulas[a]} with the cell holding '
+                             f'{cells.get("A" + str(row))!r} = {want[a]!r}, '
+                             f'after to_file/from_file ({fmt}) {got!r}')
+
+
 def shards(tier, seed):
     out = [dict(kind='bin-dec2', part=k, parts=4) for k in range(4)]
     out += [dict(kind='bin-strings', part=k, parts=4,
@@ -372,6 +419,7 @@ def run_shard(shard, rec):
             check_2dec(wctx, 'BIN', s)
         for s in ('FF', 'ff', 'FFFFFFFFFF', '0x1F', 'G'):
             check_2dec(wctx, 'HEX', s)
+        check_persisted(rec)
     elif kind == 'hyp':
         def value_for(base):
             half = HALF[base]
@@ -426,6 +474,9 @@ def run_shard(shard, rec):
 
 
 def replay(case, rec):
+    if isinstance(case, dict) and case.get('kind_') == 'persisted':
+        check_persisted(rec)
+        return
     if isinstance(case, dict) and case.get('kind') == 'purity':
         from vlib import purity
         purity.order_independence(
